@@ -17,7 +17,8 @@ case "$CFG" in
 esac
 HASH=$( { cd "$REPO" && find Cargo.toml Cargo.lock src hannibal-derive/src hannibal-derive/Cargo.toml -type f 2>/dev/null | LC_ALL=C sort | xargs sha256sum; sha256sum "$DRV"; } | sha256sum | cut -c1-20)
 OUT="$V/.cache/facts/$HASH/$CFG"
-if [ -s "$OUT/hannibal.json" ]; then echo "$OUT/hannibal.json"; exit 0; fi
+# a hit refreshes the entry's age: the pruning below is least-recently-used, not oldest-created
+if [ -s "$OUT/hannibal.json" ]; then touch "$V/.cache/facts/$HASH" 2>/dev/null || true; echo "$OUT/hannibal.json"; exit 0; fi
 mkdir -p "$OUT"
 TD="$V/.cache/target-nightly/$CFG"
 mkdir -p "$TD"
@@ -42,6 +43,6 @@ mkdir -p "$TD"
   grep -q "\"nonce\":\"$NONCE\"" "$OUT/hannibal.json" || { echo "CHECKER-ERROR stale fact file for cfg=$CFG" >&2; rm -f "$OUT/hannibal.json"; exit 3; }
 ) 9>"$TD/.lock"
 
-# keep the fact cache small: drop all but the 40 most recently used trees
-ls -1dt "$V"/.cache/facts/*/ 2>/dev/null | tail -n +41 | xargs -r rm -rf
+# keep the fact cache small: drop all but the 60 most recently used trees
+ls -1dt "$V"/.cache/facts/*/ 2>/dev/null | tail -n +61 | xargs -r rm -rf
 echo "$OUT/hannibal.json"
